@@ -886,6 +886,12 @@ ws_read_finish_str(nni_ws *ws)
 		while ((frame != NULL) && (niov != 0)) {
 			size_t n;
 
+			if (iov->iov_len == 0) {
+				// skip empty entries, or we would never advance
+				iov++;
+				niov--;
+				continue;
+			}
 			if ((n = frame->len) > iov->iov_len) {
 				// This eats the entire iov.
 				n = iov->iov_len;
